@@ -92,9 +92,10 @@ type world struct {
 	glitched  string
 	// death mode with overriding recoverers: who holds a lock acquired after the recovery (live, beating on time), and
 	// how many staleness evaluations each client made since its Mkdir last said "exists"
-	recHolding map[int]bool
-	releasing  map[int]bool
-	stale      map[int]int
+	// (slices indexed by client, not maps: recoverers woken by the same timer run their un-gated code side by side)
+	recHolding []bool
+	releasing  []bool
+	stale      []int
 }
 
 // onTime: the holder's heart beat is never delayed by the schedule (ontime), or only loses one beat to one transient
@@ -216,7 +217,7 @@ func newLock(backend afero.Fs, shared *vfsx.Shared, client int, override bool) f
 
 func body(sc scenario) func(x *gosim.Exec) {
 	return func(x *gosim.Exec) {
-		w := &world{x: x, sc: sc, recHolding: map[int]bool{}, releasing: map[int]bool{}, stale: map[int]int{}, silence: map[int]time.Duration{}, dead: make(chan struct{}), dirOwner: -1, outcome: make([]string, 1+len(sc.Observers)+sc.Racers)}
+		w := &world{x: x, sc: sc, recHolding: make([]bool, 16), releasing: make([]bool, 16), stale: make([]int, 16), silence: map[int]time.Duration{}, dead: make(chan struct{}), dirOwner: -1, outcome: make([]string, 1+len(sc.Observers)+sc.Racers)}
 		x.User = w
 		verifrt.EventHook = func(name string) {
 			if th := x.Current(); th != nil && name == "IsStale" {
